@@ -48,18 +48,30 @@ func c31(c *engine.Ctx) {
 	if p == nil {
 		return
 	}
+	hhUse(p)
 	const CS = "tm2/pkg/bft/consensus.(*ConsensusState)."
 	const VS = "tm2/pkg/bft/types.(*VoteSet)."
+	// the state-machine functions are rule anchors: helpers are followed, these are not
+	var stops []string
+	for _, n := range []string{"enterNewRound", "enterPropose", "enterPrevote", "enterPrevoteWait", "enterPrecommit", "enterPrecommitWait", "enterCommit",
+		"tryFinalizeCommit", "finalizeCommit", "updateToState", "addVote", "tryAddVote", "handleMsg", "handleTimeout", "handleTxsAvailable",
+		"defaultDoPrevote", "defaultDecideProposal", "defaultSetProposal", "addProposalBlockPart", "signAddVote", "signVote", "receiveRoutine"} {
+		stops = append(stops, CS+n)
+	}
+	hhSetStops(stops...)
 
 	// ---- (1) prevote respects the lock ----
 	if f := c.MustFunc(CS + "defaultDoPrevote"); f != nil {
 		info := f.Info()
 		recv := hhRecv(f)
 		locked, unlocked := 0, 0
-		for _, s := range f.CallsTo(CS + "signAddVote") {
-			facts := hhFacts(f, s)
-			key := f.Name + " signAddVote(" + hhRender(hhArg(s.Call, 1)) + ")"
-			if hhConstName(info, hhArg(s.Call, 0)) != "PrevoteType" {
+		for _, d := range hhDeepCalls(f, CS+"signAddVote") {
+			d := d
+			s := d.Outer
+			arg := func(i int) ast.Expr { return hhDeepArg(d, i) }
+			facts := hhDeepFacts(f, d)
+			key := f.Name + " signAddVote(" + hhRender(arg(1)) + ")"
+			if hhConstName(info, arg(0)) != "PrevoteType" {
 				c.Check("prevote-locked", key, s.Pos(), false, "defaultDoPrevote must cast prevotes only")
 				continue
 			}
@@ -69,25 +81,25 @@ func c31(c *engine.Ctx) {
 				c.Check("prevote-locked", key, s.Pos(), false, "prevote is cast on a path that did not test cs.LockedBlock (or the test is combined with another condition)")
 			case nonNil:
 				locked++
-				r1, _, ok1 := hhMethodCall(info, hhArg(s.Call, 1), "Hash")
-				r2, _, ok2 := hhMethodCall(info, hhArg(s.Call, 2), "Header")
+				r1, _, ok1 := hhMethodCall(info, hhResolve(f, arg(1)), "Hash")
+				r2, _, ok2 := hhMethodCall(info, hhResolve(f, arg(2)), "Header")
 				ok := ok1 && ok2 && hhIsChain(info, r1, recv, "LockedBlock") && hhIsChain(info, r2, recv, "LockedBlockParts")
 				c.Check("prevote-locked", key, s.Pos(), ok, "while locked the prevote must be for cs.LockedBlock.Hash()/cs.LockedBlockParts.Header()")
 			default:
 				unlocked++
 				ok, why := true, "cast only when cs.LockedBlock == nil"
-				if !isNil(hhArg(s.Call, 1)) {
+				if !isNil(arg(1)) {
 					// a prevote for a block: the proposal block, validated
-					r1, _, ok1 := hhMethodCall(info, hhArg(s.Call, 1), "Hash")
+					r1, _, ok1 := hhMethodCall(info, hhResolve(f, arg(1)), "Hash")
 					if !ok1 || !hhIsChain(info, r1, recv, "ProposalBlock") {
 						ok, why = false, "an unlocked prevote for a block must be for cs.ProposalBlock.Hash()"
 					} else {
 						ok, why = false, "no ValidateBlock(cs.ProposalBlock) guard"
-						for _, vs := range f.CallsTo("tm2/pkg/bft/state.(State).ValidateBlock") {
-							if !hhIsChain(info, hhArg(vs.Call, 0), recv, "ProposalBlock") {
+						for _, vd := range hhDeepCalls(f, "tm2/pkg/bft/state.(State).ValidateBlock") {
+							if !hhIsChain(info, hhDeepArg(vd, 0), recv, "ProposalBlock") {
 								continue
 							}
-							if ok, why = hhErrGuard(f, vs, s); ok {
+							if ok, why = hhDeepMustSucceed(f, vd, s); ok {
 								why = "proposal block validated before it is prevoted"
 								break
 							}
@@ -127,7 +139,7 @@ func c31(c *engine.Ctx) {
 	// ---- (2) who casts which vote type ----
 	{
 		refs := p.RefsToFunc(CS + "signAddVote")
-		callers := engine.CallerSet(refs)
+		callers := hhLiftCallers(p, engine.CallerSet(refs), []string{CS + "defaultDoPrevote", CS + "enterPrecommit"})
 		extra := hhExtra(callers, []string{CS + "defaultDoPrevote", CS + "enterPrecommit"})
 		c.Check("vote-callers", CS+"signAddVote", token.NoPos, len(extra) == 0, "callers: "+join(callers))
 		c.Floor("vote-callers", len(callers), 2)
@@ -148,7 +160,7 @@ func c31(c *engine.Ctx) {
 		// the polka query: cs.Votes.Prevotes(round).TwoThirdsMajority()
 		var polka *engine.Site
 		for _, s := range f.CallsTo(VS + "TwoThirdsMajority") {
-			if rx, rc, ok := hhMethodCall(info, ast.Unparen(s.Call.Fun).(*ast.SelectorExpr).X, "Prevotes"); ok {
+			if rx, rc, ok := hhMethodCall(info, hhResolve(f, ast.Unparen(s.Call.Fun).(*ast.SelectorExpr).X), "Prevotes"); ok {
 				if hhIsChain(info, rx, recv, "Votes") && hhIdent(hhArg(rc, 0)) != nil && info.ObjectOf(hhIdent(hhArg(rc, 0))) == round {
 					polka = s
 				}
@@ -185,13 +197,16 @@ func c31(c *engine.Ctx) {
 			return false, false
 		}
 		nonNil := 0
-		for _, s := range f.CallsTo(CS + "signAddVote") {
-			key := f.Name + " signAddVote(" + hhRender(hhArg(s.Call, 1)) + ")"
-			if hhConstName(info, hhArg(s.Call, 0)) != "PrecommitType" {
+		for _, d := range hhDeepCalls(f, CS+"signAddVote") {
+			d := d
+			s := d.Outer
+			arg := func(i int) ast.Expr { return hhDeepArg(d, i) }
+			key := f.Name + " signAddVote(" + hhRender(arg(1)) + ")"
+			if hhConstName(info, arg(0)) != "PrecommitType" {
 				c.Check("precommit-polka", key, s.Pos(), false, "enterPrecommit must cast precommits only")
 				continue
 			}
-			if isNil(hhArg(s.Call, 1)) {
+			if isNil(arg(1)) {
 				c.Check("precommit-polka", key, s.Pos(), true, "nil precommit is always safe")
 				continue
 			}
@@ -200,7 +215,7 @@ func c31(c *engine.Ctx) {
 				c.Check("precommit-polka", key, s.Pos(), false, "no polka query to relate the vote to")
 				continue
 			}
-			facts := hhFacts(f, s)
+			facts := hhDeepFacts(f, d)
 			why := ""
 			ok := true
 			fail := func(m string) {
@@ -217,7 +232,7 @@ func c31(c *engine.Ctx) {
 			if k, e := polkaNil(facts); !k || e {
 				fail("precommit for a block is not under `len(blockID.Hash) != 0` (as a stand-alone test)")
 			}
-			if !isPolkaHash(hhArg(s.Call, 1)) || !hhIsChain(info, hhArg(s.Call, 2), polkaID, "PartsHeader") {
+			if !isPolkaHash(arg(1)) || !hhIsChain(info, arg(2), polkaID, "PartsHeader") {
 				fail("precommit must carry the polka's blockID.Hash / blockID.PartsHeader")
 			}
 			relock := hashesTo(facts, "LockedBlock", true)
@@ -225,21 +240,21 @@ func c31(c *engine.Ctx) {
 			if !relock && !newlock {
 				fail("precommit is not under `cs.LockedBlock.HashesTo(blockID.Hash)` or `cs.ProposalBlock.HashesTo(blockID.Hash)`")
 			}
-			if !hhDominatingAssign(f, s, recv, "LockedRound", isRound) {
+			if !hhDeepDominatingAssign(f, s, recv, "LockedRound", isRound) {
 				fail("`cs.LockedRound = round` does not dominate the precommit")
 			}
 			if !relock && newlock {
-				if !hhDominatingAssign(f, s, recv, "LockedBlock", func(e ast.Expr) bool { return hhIsChain(info, e, recv, "ProposalBlock") }) ||
-					!hhDominatingAssign(f, s, recv, "LockedBlockParts", func(e ast.Expr) bool { return hhIsChain(info, e, recv, "ProposalBlockParts") }) {
+				if !hhDeepDominatingAssign(f, s, recv, "LockedBlock", func(e ast.Expr) bool { return hhIsChain(info, e, recv, "ProposalBlock") }) ||
+					!hhDeepDominatingAssign(f, s, recv, "LockedBlockParts", func(e ast.Expr) bool { return hhIsChain(info, e, recv, "ProposalBlockParts") }) {
 					fail("new lock: `cs.LockedBlock = cs.ProposalBlock` / `cs.LockedBlockParts = cs.ProposalBlockParts` must dominate the precommit")
 				}
 				vok := false
 				vwhy := "no ValidateBlock(cs.ProposalBlock) guard"
-				for _, vs := range f.CallsTo("tm2/pkg/bft/state.(State).ValidateBlock") {
-					if !hhIsChain(info, hhArg(vs.Call, 0), recv, "ProposalBlock") {
+				for _, vd := range hhDeepCalls(f, "tm2/pkg/bft/state.(State).ValidateBlock") {
+					if !hhIsChain(info, hhDeepArg(vd, 0), recv, "ProposalBlock") {
 						continue
 					}
-					if vok, vwhy = hhErrGuard(f, vs, s); vok {
+					if vok, vwhy = hhDeepMustSucceed(f, vd, s); vok {
 						break
 					}
 				}
@@ -256,19 +271,15 @@ func c31(c *engine.Ctx) {
 
 		// lock writes inside enterPrecommit
 		nw := 0
-		for _, a := range hhFieldAssigns(f, recv) {
+		for _, a := range hhDeepFieldAssigns(f, recv) {
 			if len(a.Fields) != 1 || (a.Fields[0] != "LockedRound" && a.Fields[0] != "LockedBlock" && a.Fields[0] != "LockedBlockParts") {
 				continue
 			}
 			nw++
 			key := f.Name + " " + a.Fields[0] + " = " + hhRender(a.Rhs)
-			if a.Site == nil {
-				c.Check("lock-write", key, a.Stmt.Pos(), true, "unreachable")
-				continue
-			}
-			facts := hhFacts(f, a.Site)
+			facts := hhDeepFacts(f, a.D)
 			ok, why := true, "under its polka condition"
-			if !hhIdentFact(info, facts, polkaOK, true) || polka == nil || !g.Dominates(polka, a.Site) {
+			if !hhIdentFact(info, facts, polkaOK, true) || polka == nil || !g.Dominates(polka, a.D.Outer) {
 				ok, why = false, "lock field written without a polka in this round"
 			} else if isNil(a.Rhs) || hhIsMinusOne(info, a.Rhs) {
 				// unlock: polka for nil, or for a block that is not the locked one
@@ -303,16 +314,12 @@ func c31(c *engine.Ctx) {
 		recv := hhRecv(f)
 		vote := paramObj(f, 0)
 		nw := 0
-		for _, a := range hhFieldAssigns(f, recv) {
+		for _, a := range hhDeepFieldAssigns(f, recv) {
 			if len(a.Fields) != 1 || (a.Fields[0] != "LockedRound" && a.Fields[0] != "LockedBlock" && a.Fields[0] != "LockedBlockParts") {
 				continue
 			}
 			nw++
 			key := f.Name + " " + a.Fields[0] + " = " + hhRender(a.Rhs)
-			if a.Site == nil {
-				c.Check("lock-write", key, a.Stmt.Pos(), true, "unreachable")
-				continue
-			}
 			ok, why := true, "unlock under later-polka condition"
 			fail := func(m string) {
 				if ok {
@@ -322,7 +329,7 @@ func c31(c *engine.Ctx) {
 			if !(isNil(a.Rhs) || hhIsMinusOne(info, a.Rhs)) {
 				fail("addVote may only unlock")
 			}
-			facts := hhFacts(f, a.Site)
+			facts := hhDeepFacts(f, a.D)
 			// polka variables: an `ok`-fact whose variable is defined by <vs>.TwoThirdsMajority() with vs = cs.Votes.Prevotes(vote.Round)
 			var pid types.Object
 			for _, ft := range facts {
@@ -368,7 +375,7 @@ func c31(c *engine.Ctx) {
 				fail("unlock must require !cs.LockedBlock.HashesTo(blockID.Hash)")
 			}
 			pv := false
-			for _, k := range hhCaseGates(f, a.Site) {
+			for _, k := range hhCaseGates(f, a.D.Outer) {
 				if k == "PrevoteType" {
 					pv = true
 				}
@@ -389,28 +396,24 @@ func c31(c *engine.Ctx) {
 		g := f.Graph()
 		ups := f.CallsTo(CS + "updateHeight")
 		nw := 0
-		for _, a := range hhFieldAssigns(f, recv) {
+		for _, a := range hhDeepFieldAssigns(f, recv) {
 			if len(a.Fields) != 1 || (a.Fields[0] != "LockedRound" && a.Fields[0] != "LockedBlock" && a.Fields[0] != "LockedBlockParts") {
 				continue
 			}
 			nw++
 			key := f.Name + " " + a.Fields[0] + " = " + hhRender(a.Rhs)
-			if a.Site == nil {
-				c.Check("lock-write", key, a.Stmt.Pos(), true, "unreachable")
-				continue
-			}
 			ok, why := true, "reset together with the height change"
 			if !(isNil(a.Rhs) || hhIsMinusOne(info, a.Rhs)) {
 				ok, why = false, "updateToState may only reset the lock"
 			}
-			if ok && !g.MustPass(a.Site, ups) {
+			if ok && !g.MustPass(a.D.Outer, ups) {
 				ok, why = false, "lock reset not preceded by cs.updateHeight(...) on every path"
 			}
 			if ok {
 				// not reachable when the new state is not further out: a gate, taken on
 				// its false branch, with conjunct state.LastBlockHeight <= cs.state.LastBlockHeight
 				found := false
-				for _, gt := range g.Gates(a.Site) {
+				for _, gt := range g.Gates(a.D.Outer) {
 					if gt.OnTrue {
 						continue
 					}
@@ -442,7 +445,7 @@ func c31(c *engine.Ctx) {
 			continue
 		}
 		ws := p.FieldWrites(v)
-		got := engine.WriterSet(ws, nil)
+		got := hhLiftCallers(p, engine.WriterSet(ws, nil), allowedW)
 		extra := hhExtra(got, allowedW)
 		pos := token.NoPos
 		for _, w := range ws {
@@ -470,7 +473,7 @@ func c31(c *engine.Ctx) {
 		recv := hhRecv(f)
 		var maj *engine.Site
 		for _, s := range f.CallsTo(VS + "TwoThirdsMajority") {
-			if rx, rc, ok := hhMethodCall(info, ast.Unparen(s.Call.Fun).(*ast.SelectorExpr).X, "Precommits"); ok &&
+			if rx, rc, ok := hhMethodCall(info, hhResolve(f, ast.Unparen(s.Call.Fun).(*ast.SelectorExpr).X), "Precommits"); ok &&
 				hhIsChain(info, rx, recv, "Votes") && hhIsChain(info, hhArg(rc, 0), recv, "CommitRound") {
 				maj = s
 			}
@@ -488,17 +491,19 @@ func c31(c *engine.Ctx) {
 		}
 		n := 0
 		for _, t := range []tgt{{"tm2/pkg/bft/state.(BlockStore).SaveBlock", 0}, {"tm2/pkg/bft/state.(*BlockExecutor).ApplyBlock", 2}} {
-			for _, s := range f.CallsTo(t.pat) {
+			for _, d := range hhDeepCalls(f, t.pat) {
+				d := d
+				s := d.Outer
 				n++
-				key := f.Name + " -> " + s.CalleeName()
+				key := f.Name + " -> " + d.Inner.CalleeName()
 				ok, why := true, "after +2/3 test, hash match and ValidateBlock on the same block"
 				fail := func(m string) {
 					if ok {
 						ok, why = false, m
 					}
 				}
-				blk := engine.ObjOf(info, hhArg(s.Call, t.barg))
-				if _, isVar := blk.(*types.Var); !isVar || hhIdent(hhArg(s.Call, t.barg)) == nil {
+				blk := engine.ObjOf(info, hhDeepArg(d, t.barg))
+				if _, isVar := blk.(*types.Var); !isVar || hhIdent(hhDeepArg(d, t.barg)) == nil {
 					fail("block argument is not a local variable")
 				} else if st, _ := hhSingleDef(f, blk); st == nil {
 					fail("block variable is assigned more than once")
@@ -515,7 +520,7 @@ func c31(c *engine.Ctx) {
 				}
 				// block.HashesTo(blockID.Hash) holds
 				hm := false
-				for _, ft := range hhFacts(f, s) {
+				for _, ft := range hhDeepFacts(f, d) {
 					rx, call, isM := hhMethodCall(info, ft.E, "HashesTo")
 					if isM && ft.True && blk != nil && engine.ObjOf(info, rx) == blk && hhIsChain(info, hhArg(call, 0), bid, "Hash") {
 						hm = true
@@ -525,11 +530,11 @@ func c31(c *engine.Ctx) {
 					fail("no effective `block.HashesTo(blockID.Hash)` test on the block being committed")
 				}
 				vok, vwhy := false, "no ValidateBlock(block) call"
-				for _, vs := range f.CallsTo("tm2/pkg/bft/state.(State).ValidateBlock") {
-					if engine.ObjOf(info, hhArg(vs.Call, 0)) != blk {
+				for _, vd := range hhDeepCalls(f, "tm2/pkg/bft/state.(State).ValidateBlock") {
+					if engine.ObjOf(info, hhDeepArg(vd, 0)) != blk {
 						continue
 					}
-					if vok, vwhy = hhErrGuard(f, vs, s); vok {
+					if vok, vwhy = hhDeepMustSucceed(f, vd, s); vok {
 						break
 					}
 				}
@@ -541,13 +546,15 @@ func c31(c *engine.Ctx) {
 		}
 		c.Floor("commit-gate finalizeCommit", n, 2)
 		// the seen commit is made from the tested vote set
-		for _, s := range f.CallsTo(VS + "MakeCommit") {
-			rx := ast.Unparen(s.Call.Fun).(*ast.SelectorExpr).X
+		for _, md := range hhDeepCalls(f, VS+"MakeCommit") {
+			s := md.Outer
+			rx := ast.Unparen(md.Inner.Call.Fun).(*ast.SelectorExpr).X
 			if id := hhIdent(rx); id != nil {
-				if d := hhDefExpr(f, info.ObjectOf(id)); d != nil {
+				if d := hhDefExpr(md.Inner.Fn, info.ObjectOf(id)); d != nil {
 					rx = d
 				}
 			}
+			rx = hhDeepMap(md)(rx)
 			r2, rc, ok := hhMethodCall(info, rx, "Precommits")
 			ok = ok && hhIsChain(info, r2, recv, "Votes") && hhIsChain(info, hhArg(rc, 0), recv, "CommitRound")
 			c.Check("commit-gate", f.Name+" MakeCommit source", s.Pos(), ok, "seen commit must be made from cs.Votes.Precommits(cs.CommitRound)")
@@ -564,7 +571,7 @@ func c31(c *engine.Ctx) {
 			{CS + "updateHeight", []string{CS + "updateToState"}},
 			{CS + "updateToState", []string{CS + "finalizeCommit", "tm2/pkg/bft/consensus.NewConsensusState", "tm2/pkg/bft/consensus.(*ConsensusReactor).SwitchToConsensus"}},
 		} {
-			callers := engine.CallerSet(p.RefsToFunc(w.fn))
+			callers := hhLiftCallers(p, engine.CallerSet(p.RefsToFunc(w.fn)), w.allowed)
 			extra := hhExtra(callers, w.allowed)
 			c.Check("commit-gate", "callers of "+w.fn, token.NoPos, len(extra) == 0 && len(callers) > 0, "callers: "+join(callers))
 		}
@@ -578,7 +585,7 @@ func c31(c *engine.Ctx) {
 			ok, why := true, "under +2/3 non-nil and have-the-block tests"
 			var maj *engine.Site
 			for _, m := range f.CallsTo(VS + "TwoThirdsMajority") {
-				if rx, rc, isM := hhMethodCall(info, ast.Unparen(m.Call.Fun).(*ast.SelectorExpr).X, "Precommits"); isM &&
+				if rx, rc, isM := hhMethodCall(info, hhResolve(f, ast.Unparen(m.Call.Fun).(*ast.SelectorExpr).X), "Precommits"); isM &&
 					hhIsChain(info, rx, recv, "Votes") && hhIsChain(info, hhArg(rc, 0), recv, "CommitRound") {
 					maj = m
 				}
@@ -662,11 +669,11 @@ func c31(c *engine.Ctx) {
 	// ---- (5) signing path ----
 	{
 		inCons := func(xs []string) []string { return hhWithPrefix(xs, "tm2/pkg/bft/consensus.") }
-		sv := inCons(engine.CallerSet(p.RefsToFunc("tm2/pkg/bft/types.(PrivValidator).SignVote")))
+		sv := hhLiftCallers(p, inCons(engine.CallerSet(p.RefsToFunc("tm2/pkg/bft/types.(PrivValidator).SignVote"))), []string{CS + "signVote"})
 		c.Check("sign-path", "callers of PrivValidator.SignVote in consensus", token.NoPos, len(hhExtra(sv, []string{CS + "signVote"})) == 0 && len(sv) == 1, "callers: "+join(sv))
-		sp := inCons(engine.CallerSet(p.RefsToFunc("tm2/pkg/bft/types.(PrivValidator).SignProposal")))
+		sp := hhLiftCallers(p, inCons(engine.CallerSet(p.RefsToFunc("tm2/pkg/bft/types.(PrivValidator).SignProposal"))), []string{CS + "defaultDecideProposal"})
 		c.Check("sign-path", "callers of PrivValidator.SignProposal in consensus", token.NoPos, len(hhExtra(sp, []string{CS + "defaultDecideProposal"})) == 0 && len(sp) == 1, "callers: "+join(sp))
-		sc := engine.CallerSet(p.RefsToFunc(CS + "signVote"))
+		sc := hhLiftCallers(p, engine.CallerSet(p.RefsToFunc(CS+"signVote")), []string{CS + "signAddVote"})
 		c.Check("sign-path", "callers of signVote", token.NoPos, len(hhExtra(sc, []string{CS + "signAddVote"})) == 0 && len(sc) == 1, "callers: "+join(sc))
 		// any other access to the signing key from the consensus package
 		var keyUsers []string
